@@ -37,7 +37,13 @@ func diffMsg(a, b protoreflect.Message, depth int) string {
 			}
 			return ""
 		}
-		return diffMsg(mx.ProtoReflect(), my.ProtoReflect(), depth+1)
+		if d := diffMsg(mx.ProtoReflect(), my.ProtoReflect(), depth+1); d != "" {
+			return d
+		}
+		if string(x.Value) != string(y.Value) {
+			return "<same-content-other-encoding>" // e.g. a map field marshalled in another order
+		}
+		return ""
 	}
 	fields := map[protoreflect.FieldNumber]protoreflect.FieldDescriptor{}
 	a.Range(func(fd protoreflect.FieldDescriptor, _ protoreflect.Value) bool { fields[fd.Number()] = fd; return true })
